@@ -18,8 +18,10 @@ UNIT_ARG = {'angular_position': ('angular_position_unit', 'AngularPosition'), 'a
 
 def simulated(rnd, i):
     """a small simulated powertrain with as many recorded variable kinds as possible"""
-    for attempt in range(40):
-        elems = solver_gen.random_chain(rnd, rnd.randint(3, 7), with_current=(i % 3 != 0), stress=True)
+    for attempt in range(4000):
+        elems = solver_gen.random_chain(rnd, rnd.randint(3, 7) if i % 3 else rnd.randint(4, 7), with_current=(i % 3 != 0), stress=True)
+        if i % 3 == 0 and not any(e['rel']['type'] == 'gear' and e['teeth'] == elems[j - 1]['teeth'] and e['rel']['arg'] != 1 for j, e in enumerate(elems) if j >= 1):
+            continue                   # every third powertrain has a lossy mating whose ratio is exactly 1 (its two gears do NOT share their torques)
         if i % 4 != 3:
             solver_gen.complete_data(elems, rnd)
         # give gears full data where possible so that force / stresses are recorded
